@@ -10,7 +10,7 @@ def monitor_chains(ctx, infile, implfile):
     cause_sigs = set()
     with open(infile) as fi, open(implfile) as fo:
         for li, lo in zip(fi, fo):
-            if not li.startswith("cscript "):
+            if not li.startswith(("cscript ", "cpscript ")):
                 continue
             sc = ck.Script(li)
             res = ck.parse_output(lo, sc)
@@ -23,6 +23,9 @@ def monitor_chains(ctx, infile, implfile):
                 case = {"config": sc.cfg.describe(), "history": list(history)}
                 if it["kind"] == "R":
                     st = r["status"]
+                    for col in ck.name_collisions(r["cookies"]):
+                        ctx.violation("c17-counter-cookie-overwritten", "two different cookies of one response share name, domain and path: the browser "
+                                      "keeps only the second, a counter written first never comes back", dict(case, status=st, collision=col))
                     if st == 307:
                         since_clear += 1
                     if (it["ep"] == "C" and st == 302) or (it["ep"] == "B" and st == 302) or (it["ep"] == "F" and st == 200):
@@ -126,7 +129,7 @@ def monitor_ratelimit(ctx, infile, implfile):
     sigs = set()
     with open(infile) as fi, open(implfile) as fo:
         for li, lo in zip(fi, fo):
-            if not li.startswith("cscript "):
+            if not li.startswith(("cscript ", "cpscript ")):
                 continue
             sc = ck.Script(li)
             if any(it["kind"] != "R" for it in sc.items):
@@ -168,6 +171,35 @@ def monitor_ratelimit(ctx, infile, implfile):
     return len(sigs)
 
 
+def monitor_request_target_forms(ctx):
+    """`wwh retryloc`: the retry chains of a cookie-keeping browser whose requests are written in every request-target form
+    (origin-form, absolute-form for the ingress / a foreign host, scheme without authority, foreign Host header ...), with and
+    without X-Forwarded-Host, for every interactive endpoint and failure cause: at most three automatic retry redirects, then a
+    terminal answer - however the request line is written."""
+    import json
+    pre = ctx.path("retryloc")
+    out, dt = vf.run_driver(["retryloc", "-out", pre, "-seed", str(ctx.seed), "-tier", ctx.tier])
+    ctx.timings["retryloc"] = round(dt, 2)
+    chains = {}
+    for l in open(pre + ".jsonl"):
+        r = json.loads(l)
+        chains.setdefault(r["chain"], []).append(r)
+    sigs = set()
+    for cid, rs in chains.items():
+        sts = [r["status"] for r in rs]
+        sigs.add((rs[0]["mode"], rs[0]["request_target_form"], bool(rs[0]["x_forwarded_host"]), rs[0]["endpoint"], rs[0]["fault"], tuple(sts)))
+        n307 = sum(1 for x in sts if x == 307)
+        if n307 > MAX_RETRIES or (sts and sts[-1] == 307 and len(sts) >= 6):
+            r0 = rs[0]
+            ctx.violation("c17-more-than-three-retries", "more than three automatic retry redirects without a terminal error page",
+                          {"mode": r0["mode"], "ingresses": r0["ingresses"], "request_target_form": r0["request_target_form"],
+                           "requests": ["GET %s (Host: %s%s)" % (r["request_target"], r["host_header"],
+                                                                 ", X-Forwarded-Host: " + r["x_forwarded_host"] if r["x_forwarded_host"] else "") for r in rs],
+                           "fault": ck.describe_fault(r0["fault"]), "status_chain": sts, "locations": [r["location"] for r in rs]})
+    ctx.extra["request_target_forms"] = out.strip().split("\n")[-1]
+    return len(sigs)
+
+
 def run(ctx):
     pre = ctx.path("retry")
     out, dt = vf.run_driver(["retry", "-out", pre, "-seed", str(ctx.seed), "-tier", ctx.tier] + ck.driver_flags())
@@ -178,6 +210,7 @@ def run(ctx):
                        pre + ".in", pre + ".impl")
     nt = monitor_chains(ctx, pre + ".in", pre + ".impl")
     nt += monitor_ratelimit(ctx, pre + ".in", pre + ".impl")
+    nt += monitor_request_target_forms(ctx)
     ctx.nontrivial += nt
     with open(pre + ".in") as fi, open(pre + ".impl") as fo:
         for i, (a, b) in enumerate(zip(fi, fo)):
@@ -192,7 +225,7 @@ def run(ctx):
                 "cancelled meanwhile, connection refused - PAR endpoint at login, token endpoint at the callback - and session-store failure plain / with a deadline "
                 "error / with a cancellation - callback, logout, local logout -, persistent, alternating with successes, mixed and random) "
                 "x ingress prefix {'', /app, nested, look-alike /o} x mode {standalone, SSO server} x scheme, counter-reset scenarios; "
-                "rate limit: enabled x logins {0,1,5} x window {1s,5s,0.5s,1.5s} x gaps {0,1ns,w/2,w-1ns,w,w+1ns,1s} with/without session; "
+                "rate limit: enabled x logins {0,1,5} x window {1s,5s,0.5s,1.5s} x gaps {0,1ns,w/2,w-1ns,w,w+1ns,1s} with/without session, x cookie-name configurations as main.go derives them (default, custom cookie.prefix, SSO mode with sso.session-cookie-name; package variables set and restored around each configuration); chains also under a custom prefix; request-target forms (wwh retryloc: absolute-form for the ingress / a foreign host, scheme-only, foreign Host header, x X-Forwarded-Host) x endpoint x failure cause, retries followed; "
                 "distinct_nontrivial counts distinct status chains per configuration plus distinct (logins, window, expectation, count) states")
     ctx.assumptions += [
         "failure causes injected through the router: provider refusing the pushed authorization request (login), missing login cookie, bad state, "
